@@ -405,7 +405,9 @@ func c16Arguments(c *Ctx, lists map[string]*c16List) {
 		}
 		for _, kn := range []string{"getFNwkSIntKey", "getAppSKey", "getSNwkSIntKey", "getNwkSEncKey"} {
 			if !derived[kn] {
-				c.Run.Bad(rKey, name+"/"+kn, c.Prog.Rel(L.tl.Pos), "a task of "+name+" derives the session key with "+kn, "no task calls "+kn)
+				// not a refutation: the derivation may be reached through a table of functions or a helper; whether the
+				// right keys come out is decided by R9 on the core itself
+				c.Run.Unknown(rKey, name+"/"+kn, c.Prog.Rel(L.tl.Pos), "a task of "+name+" derives the session key with "+kn, "no task calls "+kn+" directly")
 			}
 		}
 		for _, t := range L.tl.Tasks {
